@@ -65,9 +65,9 @@ LeqB(a, b) == IF a = <<>> THEN TRUE
               ELSE IF a[1] > b[1] THEN FALSE
               ELSE LeqB(Tail(a), Tail(b))
 
-(* chrono 0.4: DateTime<Utc> covers -262143-01-01T00:00:00 .. +262142-12-31T23:59:59 *)
+(* chrono 0.4.45: Utc.timestamp_opt accepts exactly TMIN .. TMAX (`vh codec --opt child=probe-time`) *)
 TMAX == <<0, 0, 7, 119, 154, 10, 107, 127>>                \*  8210266876799
-TMIN == <<255, 255, 248, 107, 115, 12, 156, 128>>          \* -8334601315200
+TMIN == <<255, 255, 248, 107, 115, 13, 238, 0>>            \* -8334601228800
 TimeOk(b) == IF b[1] < 128 THEN LeqB(b, TMAX) ELSE LeqB(TMIN, b)     \* binio.rs:344 timestamp_opt(..).single()
 
 XorBit(x, bit) == LET p == 2 ^ bit IN IF (x \div p) % 2 = 1 THEN x - p ELSE x + p
@@ -434,7 +434,7 @@ TextCorrs(G, ef, offs) ==
          [] f.t \in {"time", "status"} ->
               {mk("time-i64min", toff, I64MIN), mk("time-i64max", toff, I64MAX),
                mk("time-max+1", toff, <<0, 0, 7, 119, 154, 10, 107, 128>>),
-               mk("time-min-1", toff, <<255, 255, 248, 107, 115, 12, 156, 127>>)}
+               mk("time-min-1", toff, <<255, 255, 248, 107, 115, 13, 237, 255>>)}
          [] f.t = "serial" -> {mk("serial-negative", off, <<128>>), mk("serial-ff", off, <<255>>)}
          [] OTHER -> {}
     : i \in 1..Len(G) }
